@@ -507,8 +507,18 @@ func (in *Interp) mustBeFalse(cond *sym.Term) bool {
 		return cond.IsFalse()
 	}
 	if in.inReplay() {
-		// decided identically on the first visit; the result is recorded as a forced decision
-		return !in.branchX(cond, 0, false, "mustbefalse")
+		// decided on the first visit; the answer is recorded in the trace
+		d := in.trace[in.pos]
+		if !d.recordOnly || (!d.imported && d.cond != cond) {
+			panic(fmt.Sprintf("engine: nondeterministic replay at query %d: recorded %v, now %v", in.pos, d.cond, cond))
+		}
+		d.cond = cond
+		in.pos++
+		if in.pos == len(in.trace) {
+			in.model = d.altModel
+			d.altModel = nil
+		}
+		return !d.taken
 	}
 	if v, ok := in.evalModel(cond); ok && v == 1 {
 		// feasible: do not fork, just answer "not known to be false"; record as a
